@@ -81,8 +81,19 @@ package gateway
 //@      ite(tit == 1, nameSpec(h.predefinedTopics, h.clientID, id) == name,
 //@          len(name) == 2 && name[0] == uint8(id >> 8) && name[1] == uint8(id)))
 
+// ---- C06: exchanges started by the two sides share the store keyed by message ID only ----
+// An exchange in progress that the other side started must not be replaced. startedByBroker / startedByClient
+// classify the stored exchanges; inProgress = not completed yet.
+//@ spec startedByBroker(v iface) bool = istype(v, *brokerPublishQOS0Transaction) || istype(v, *brokerPublishQOS1Transaction) || istype(v, *brokerPublishQOS2Transaction)
+//@ spec startedByClient(v iface) bool = istype(v, *clientPublishQOS1Transaction) || istype(v, *subscribeTransaction)
+//@ spec tbOfGw(v iface) *transactions.TransactionBase = ite(istype(v, *clientPublishQOS1Transaction), v.(*clientPublishQOS1Transaction).TimedTransaction.TransactionBase,
+//@      ite(istype(v, *subscribeTransaction), v.(*subscribeTransaction).TimedTransaction.TransactionBase, rtOf(v).TransactionBase))
+//@ spec inProgress(v iface) bool = !finished(tbOfGw(v))
+
 //@ func (*handler1).handleClientPublish
 //@   nopanic [C25]
+//@   at Store.0 before assert [C06] no_broker_exchange_replaced: !(arg(1) in h.transactions.bypktID) || !(startedByBroker(h.transactions.bypktID[arg(1)]) && inProgress(h.transactions.bypktID[arg(1)]))
+//@   ensures [C06] only_qos1_touches_the_store: snPublish.QOS != 1 ==> (forall k uint16 :: (k in h.transactions.bypktID) == old(k in h.transactions.bypktID) && h.transactions.bypktID[k] == old(h.transactions.bypktID[k]))
 //@   requires [C25] inv: hInv(h)
 //@   requires [C25] pkt: snPublish != nil
 //@   requires [C24] decoded_qos: snPublish.QOS <= 3
@@ -480,7 +491,8 @@ package gateway
 //@   requires [C24] decoded_name: snSubscribe.TopicIDType == 0 ==> len(snSubscribe.TopicName) >= 1
 //@   requires [C24] cfg_names: cfgNamesOK(h)
 //@   assigns *
-//@   at Store.1 before assert [C25] new_entry_wf: txEntryWF(h, arg(2))
+//@   at Store.0 before assert [C25] new_entry_wf: txEntryWF(h, arg(2))
+//@   at Store.0 before assert [C06] no_broker_exchange_replaced: !(arg(1) in h.transactions.bypktID) || !(startedByBroker(h.transactions.bypktID[arg(1)]) && inProgress(h.transactions.bypktID[arg(1)]))
 //@   let n0 = old(h.mqttOutN)
 //@   ensures [C25] keeps_basic: h.cfg != nil && h.state != nil && h.snConn != nil && h.mqttConn != nil && h.transactions != nil && state(h) <= 3
 //@   ensures [C25] keeps_store: storeInv(h.transactions)
@@ -645,6 +657,10 @@ package gateway
 //@   ensures [C25] keeps_conn: connTx(h)
 //@   ensures [C25] keeps_entries: txEntries(h)
 //@   ensures [C25] keeps_pend: pendInv(h)
+// C06: only PUBLISH (QoS 1), SUBSCRIBE and the acknowledgements of broker-initiated exchanges touch the store: a client REGISTER,
+// UNSUBSCRIBE, PUBREL, PINGREQ or CONNECT exchange neither replaces nor deletes an exchange the broker started.
+//@   ensures [C06] other_client_packets_leave_the_store_alone: istype(pkt, *snPkts1.Register) || istype(pkt, *snPkts1.Unsubscribe) || istype(pkt, *snPkts1.Pubrel) ||
+//@      istype(pkt, *snPkts1.Pingreq) ==> (forall k uint16 :: (k in h.transactions.bypktID) == old(k in h.transactions.bypktID) && h.transactions.bypktID[k] == old(h.transactions.bypktID[k]))
 //@   ensures [C07] gate: old(state(h)) == 0 && !old(legalWhenDisconnected(h, pkt)) ==> result == ErrIllegalPacketWhenDisconnected &&
 //@      h.mqttOutN == m0 && h.snOutN == s0 && state(h) == 0
 //@   ensures [C07] no_activation_by_client_packet: old(state(h)) == 0 ==> state(h) == 0
